@@ -115,6 +115,10 @@ def run(ctx):
                     equal_label = (not is_ne) != neg
                     if names == {"V3"} and (equal_label in labels):
                         v3 = True
+            # `match version { FormatVersion::V3 => .. }`
+            for sb, t, labels in conds:
+                if t.k == "discr" and labels == ["V3"] and any(x.k == "call" and x.a[0].endswith("parse_file_header") for x in A.walk(t)):
+                    v3 = True
             ok = some and v3 and bool(ph)
             detail = "Ok(()) only on the edge parse_file_header(bytes) == Some(V3)" if ok else "check_version can return Ok without the header being exactly V3 (Some edge=%s, ==V3 edge=%s)" % (some, v3)
         ctx.ob("R-C17.1", cv, "ok-only-for-v3", ok, detail)
